@@ -5,6 +5,7 @@
     case <id> n=<k>
     sil|nfl <node> <small|big> -> seen=<c>/<n>
     join                        -> has=<m>/<m> members=<k>
+    rejoin <node>               -> has=<m>/<m> members=<k>     crash without leave + a new instance on the same address
 -/
 import Driver.Util
 
@@ -27,6 +28,11 @@ def step (σ : St) (op obs : List String) : St × List Msg :=
       [Msg.propfail (if size = "big" then "oversize_reaches_every_peer" else "broadcast_routed_once")
          (if size = "big" then "oversize-lost" else "update-lost") s!"{kind} update ({size}) merged by {c} of {n} nodes"] else []
     (σ, expectEq "seen.n" (toString σ.n) (toString n) ++ pf ++ [.tag s!"{kind}:{size}"])
+  | ["rejoin", _], [has, members] =>
+    -- a member restarted on its address under a new name: it is a live peer like any other (the member count is unchanged)
+    let (c, n) := frac ((kv [has] "has").getD "0/1")
+    let pf := if c ≠ n then [Msg.propfail "full_state_superset" "rejoin-incomplete" s!"the restarted instance holds {c} of {n} updates"] else []
+    (σ, pf ++ expectEq "rejoin.members" (toString σ.n) ((kv [members] "members").getD "?") ++ [.tag "rejoin"])
   | ["join"], [has, _members] =>
     let (c, n) := frac ((kv [has] "has").getD "0/1")
     let pf := if c ≠ n then [Msg.propfail "full_state_superset" "join-incomplete" s!"joiner holds {c} of {n} updates"] else []
